@@ -11,7 +11,7 @@ use serde::{Deserialize, Serialize};
 pub fn def() -> PropDef {
     PropDef {
         id: "C12",
-        rule: "generated: codec family x engine x configuration x received-set spec x index probes {0, count-1, count, count+1, 2^32, usize::MAX-1, usize::MAX, random} x 1..20 consecutive rounds on one encoder and one decoder without explicit reset (new data and a new received set each round). oracle: recovery(i) is Some of the configured length iff i < recovery_count, the iterator yields exactly recovery(0..r) in order and then None on 5 further calls; restored_original(i) is Some iff i < original_count and not given (never when all were given), the iterator yields exactly those pairs ascending, then None 5 times; restored bytes equal the encoded originals; every round after a dropped result accepts all adds and is right again. non-trivial: sparse received set with k >= 16, or a probe >= 2^32, or >= 3 rounds; distinct by full case",
+        rule: "generated: codec family x engine x configuration x received-set spec x index probes {0, count-1, count, count+1, 2^32, usize::MAX-1, usize::MAX, random} x 1..20 consecutive rounds on one encoder and one decoder without explicit reset (new data and a new received set each round). oracle: recovery(i) is Some of the configured length iff i < recovery_count, the iterator yields exactly recovery(0..r) in order and then None on 5 further calls; restored_original(i) is Some iff i < original_count and not given (never when all were given), the iterator yields exactly those pairs ascending, then None 5 times; restored bytes equal the encoded originals; every round after a dropped result accepts all adds and is right again. part iter_protocol: generated sequences of std Iterator operations (next, nth, skip, step_by, take, count, last, fold, size_hint) on both result iterators must agree with a model iterator over exactly the expected items. non-trivial: sparse received set with k >= 16, or a probe >= 2^32, or >= 3 rounds; distinct by full case",
         assumptions: &[],
         parts,
     }
@@ -47,7 +47,152 @@ fn strategy(t: Tier) -> BoxedStrategy<AccCase> {
 }
 
 fn parts() -> Vec<Box<dyn PartDyn>> {
-    vec![Box::new(GenPart { name: "accessors", quick: 15_000, thorough: 300_000, shrink_iters: 600, strat: strategy, check })]
+    vec![
+        Box::new(GenPart { name: "accessors", quick: 15_000, thorough: 300_000, shrink_iters: 600, strat: strategy, check }),
+        Box::new(GenPart { name: "iter_protocol", quick: 20_000, thorough: 400_000, shrink_iters: 600, strat: iter_strategy, check: check_iter }),
+    ]
+}
+
+// ----------------------------------------------------------------------
+// the result iterators driven through the std Iterator interface (nth, skip, step_by, take, count,
+// last, fold ... after any number of next calls) against a model iterator over the expected items
+
+#[derive(Clone, Debug, PartialEq, Eq, Hash, Serialize, Deserialize)]
+pub enum IterOp {
+    Next,
+    Nth(u8),
+    SkipNext(u8),
+    StepByTake(u8, u8),
+    TakeCount(u8),
+    SizeHintThenNext,
+    Count,
+    Last,
+    Fold,
+}
+
+#[derive(Clone, Debug, PartialEq, Eq, Hash, Serialize, Deserialize)]
+pub struct IterCase {
+    pub kind: Kind,
+    pub eng: Eng,
+    pub cfg: Cfg,
+    pub recv: RecvSpec,
+    pub ops: Vec<IterOp>,
+    pub seed: u64,
+}
+
+fn iter_strategy(_t: Tier) -> BoxedStrategy<IterCase> {
+    let op = prop_oneof![
+        6 => Just(IterOp::Next),
+        3 => (0u8..12).prop_map(IterOp::Nth),
+        2 => (0u8..6).prop_map(IterOp::SkipNext),
+        2 => (1u8..5, 1u8..4).prop_map(|(a, b)| IterOp::StepByTake(a, b)),
+        2 => (0u8..6).prop_map(IterOp::TakeCount),
+        1 => Just(IterOp::SizeHintThenNext),
+        1 => Just(IterOp::Count),
+        1 => Just(IterOp::Last),
+        1 => Just(IterOp::Fold),
+    ];
+    gen::kind_any()
+        .prop_flat_map(move |kind| {
+            (1usize..=40, 1usize..=40, gen::shard_size_small(), gen::engine_for(kind), gen::recv_spec(), prop::collection::vec(op.clone(), 1..=12), any::<u64>())
+                .prop_map(move |(k, r, b, eng, recv, ops, seed)| IterCase { kind, eng, cfg: Cfg { k, r, b }, recv, ops, seed })
+        })
+        .boxed()
+}
+
+/// applies the ops to `it` and to the model; every observable result must agree
+fn drive<T: PartialEq + std::fmt::Debug + Clone, I: Iterator<Item = T>, M: Iterator<Item = T>>(what: &str, ops: &[IterOp], it: &mut I, model: &mut M) -> CheckResult {
+    fn eq<T: PartialEq + std::fmt::Debug>(what: &str, i: usize, op: &IterOp, a: T, b: T) -> CheckResult {
+        if a != b {
+            fail!("{what}: operation #{i} {op:?} gives {a:?}, an iterator over exactly the expected items gives {b:?}");
+        }
+        Ok(())
+    }
+    for (i, op) in ops.iter().enumerate() {
+        match op {
+            IterOp::Next => eq(what, i, op, it.next(), model.next())?,
+            IterOp::Nth(n) => eq(what, i, op, it.nth(*n as usize), model.nth(*n as usize))?,
+            IterOp::SkipNext(n) => eq(what, i, op, it.by_ref().skip(*n as usize).next(), model.by_ref().skip(*n as usize).next())?,
+            IterOp::StepByTake(a, b) => eq(
+                what, i, op,
+                it.by_ref().step_by(*a as usize).take(*b as usize).collect::<Vec<_>>(),
+                model.by_ref().step_by(*a as usize).take(*b as usize).collect::<Vec<_>>(),
+            )?,
+            IterOp::TakeCount(n) => eq(what, i, op, it.by_ref().take(*n as usize).count(), model.by_ref().take(*n as usize).count())?,
+            IterOp::SizeHintThenNext => {
+                let (lo, hi) = it.size_hint();
+                let remaining = model.by_ref().count();
+                // the model is consumed by counting: drain the subject the same way and compare
+                let got = it.by_ref().count();
+                if lo > got || hi.map(|h| h < got).unwrap_or(false) {
+                    fail!("{what}: operation #{i}: size_hint ({lo}, {hi:?}) but {got} items followed");
+                }
+                eq(what, i, op, got, remaining)?;
+            }
+            IterOp::Count => eq(what, i, op, it.by_ref().count(), model.by_ref().count())?,
+            IterOp::Last => eq(what, i, op, it.by_ref().last(), model.by_ref().last())?,
+            IterOp::Fold => eq(what, i, op, it.by_ref().fold(0usize, |a, _| a + 1), model.by_ref().fold(0usize, |a, _| a + 1))?,
+        }
+    }
+    // and then None forever
+    for extra in 0..4 {
+        let (a, b) = (it.next(), model.next());
+        if a != b {
+            fail!("{what}: after the operations, next() #{extra} gives {a:?}, expected {b:?}");
+        }
+    }
+    Ok(())
+}
+
+fn check_iter(c: &IterCase, st: &mut Stats) -> CheckResult {
+    let Cfg { k, r, b } = c.cfg;
+    let data = DataSpec { mode: 0, seed: c.seed }.expand(k, b);
+    let expected_rec = encode_all(c.kind, c.eng, k, r, b, &data).map_err(|e| format!("encode failed: {e:?}"))?;
+    let mut enc = make_enc(c.kind, c.eng, k, r, b, None).map_err(|e| format!("encoder construction failed: {e:?}"))?;
+    for d in &data {
+        enc.add(d).map_err(|e| format!("add failed: {e:?}"))?;
+    }
+    let mut verdict: CheckResult = Ok(());
+    no_panic(|| {
+        enc.encode_with(&mut |res| {
+            let mut it = res.recovery_iter();
+            let mut model = expected_rec.iter().map(|v| v.as_slice());
+            verdict = drive("recovery_iter", &c.ops, &mut it, &mut model);
+        })
+    })
+    .map_err(|p| format!("recovery iterator {p}"))?
+    .map_err(|e| format!("encode failed: {e:?}"))?;
+    verdict?;
+
+    let given = c.recv.arrival(k, r);
+    let mut have = vec![false; k];
+    let mut dec = make_dec(c.kind, c.eng, k, r, b, None).map_err(|e| format!("decoder construction failed: {e:?}"))?;
+    for g in &given {
+        if g.rec {
+            dec.add_recovery(g.idx, &expected_rec[g.idx]).map_err(|e| format!("add failed: {e:?}"))?;
+        } else {
+            have[g.idx] = true;
+            dec.add_original(g.idx, &data[g.idx]).map_err(|e| format!("add failed: {e:?}"))?;
+        }
+    }
+    let expected_res: Vec<(usize, &[u8])> = (0..k).filter(|&i| !have[i]).map(|i| (i, data[i].as_slice())).collect();
+    let mut verdict: CheckResult = Ok(());
+    no_panic(|| {
+        dec.decode_with(&mut |res| {
+            let mut it = res.restored_original_iter();
+            let mut model = expected_res.iter().cloned();
+            verdict = drive("restored_original_iter", &c.ops, &mut it, &mut model);
+        })
+    })
+    .map_err(|p| format!("restored iterator {p}"))?
+    .map_err(|e| format!("decode failed: {e:?}"))?;
+    verdict?;
+    st.classf("kind", c.kind.name());
+    st.classf("ops", c.ops.len().min(12));
+    if c.ops.iter().any(|o| !matches!(o, IterOp::Next)) && c.ops.len() >= 2 {
+        st.nontrivial_case("iter_protocol", c);
+    }
+    Ok(())
 }
 
 fn check(c: &AccCase, st: &mut Stats) -> CheckResult {
